@@ -60,7 +60,8 @@ func ruleOnce(c *Ctx) {
 				return true
 			}
 		}
-		return false
+		// a field grouped into a new sub-struct of Client (canonical name Client.x)
+		return strings.HasPrefix(p.FieldName(fv), "Client.")
 	}
 	// candidate guard fields: conditions on a Client field whose "set" edge
 	// avoids every launch site and whose "unset" edge is the only way to them.
